@@ -605,7 +605,7 @@ class PixelAlgorithms(AccessorBase):
             self._obj,
             input_core_dims=[["time"]],
             dask="parallelized",
-            output_dtypes=["uint8"],
+            output_dtypes=["uint32"],
             keep_attrs=True,
         )
 
